@@ -116,3 +116,9 @@ def sparse_subset(n: int, max_items: int = 24):
 def minimal_handle():
     """Whether (and how) a case also reads its image through a bare-bones caller-side file object (hv.core.MinimalHandle)."""
     return st.sampled_from([None, None, None, None, None, None, "plain", "seek-none", "reopen"])
+
+
+def fault():
+    """Whether (and where) the caller's file object fails once with an I/O error: [request index, k] = the k-th read() the
+    library issues on the handle while serving that request raises OSError; the request is then repeated (hv.core.check_reads)."""
+    return st.one_of(st.none(), st.none(), st.none(), st.none(), st.lists(st.integers(0, 5), min_size=2, max_size=2).map(lambda l: [l[0], 1 + l[1] % 4]))
